@@ -15,7 +15,7 @@ PID = 'C03'
 
 def rule1(ctx, rep):
     prog = ctx.prog
-    f = prog.func('dawgie.pl.schedule.next_job_batch')
+    f = prog.nfunc('dawgie.pl.schedule.next_job_batch')
     rep.analysed(f)
     with rep.rule(
         'R-C03-1',
@@ -105,8 +105,8 @@ class _Count(Flow):
 
 def rule2(ctx, rep):
     prog = ctx.prog
-    disp = prog.func('dawgie.pl.farm.dispatch')
-    put = prog.func('dawgie.pl.farm._put')
+    disp = prog.nfunc('dawgie.pl.farm.dispatch')
+    put = prog.nfunc('dawgie.pl.farm._put')
     rep.analysed(disp, put)
     with rep.rule(
         'R-C03-2',
@@ -191,7 +191,7 @@ def rule2(ctx, rep):
 
 def rule3(ctx, rep):
     prog = ctx.prog
-    f = prog.func('dawgie.pl.farm.Hand._res')
+    f = prog.nfunc('dawgie.pl.farm.Hand._res')
     rep.analysed(f)
     with rep.rule(
         'R-C03-3',
@@ -260,8 +260,45 @@ def rule3(ctx, rep):
         r.check(types == ['IndexError'], f'{f.qname}:handlers', where(f), 'only IndexError (failed lookup) is swallowed', f'exception handlers {types}: a failure while applying the result would be swallowed silently')
 
 
-def _key_shape(e, base):
+_SHAPE_FN = [None]  # function whose single-assignment locals may be expanded while a key shape is computed
+
+
+def _local_def(name):
+    fn = _SHAPE_FN[0]
+    if fn is None:
+        return None
+    defs = [s.value for s in fn.own_nodes() if isinstance(s, ast.Assign) and any(isinstance(t, ast.Name) and t.id == name for t in s.targets)]
+    return defs[0] if len(defs) == 1 else None
+
+
+def _key_shape(e, base, _depth=0):
     """shape of a busy-list key expression: list of ('fld', attr) / ('lit', text) / ('dflt', attr, text)"""
+    if isinstance(e, ast.Name) and e.id != base and _depth < 4:
+        d = _local_def(e.id)
+        if d is not None:
+            return _key_shape(d, base, _depth + 1)
+    if isinstance(e, ast.Call) and isinstance(e.func, ast.Attribute) and e.func.attr == 'join' and isinstance(e.func.value, ast.Constant) and e.func.value.value == '' and len(e.args) == 1 and isinstance(e.args[0], (ast.Tuple, ast.List)):
+        out = []
+        for x in e.args[0].elts:
+            s = _key_shape(x, base, _depth)
+            if s is None:
+                return None
+            out += s
+        return out
+    if isinstance(e, (ast.IfExp, ast.BoolOp)):
+        # <x> if <x> else 'dflt'  /  <x> or 'dflt'  where <x> is a local that already carries the same default
+        inner, dflt = None, None
+        if isinstance(e, ast.IfExp) and norm(e.test) == norm(e.body) and isinstance(e.orelse, ast.Constant):
+            inner, dflt = e.body, e.orelse.value
+        elif isinstance(e, ast.BoolOp) and isinstance(e.op, ast.Or) and len(e.values) == 2 and isinstance(e.values[1], ast.Constant):
+            inner, dflt = e.values[0], e.values[1].value
+        if isinstance(inner, ast.Name) and inner.id != base:
+            s = _key_shape(inner, base, _depth + 1)
+            if s is not None and len(s) == 1:
+                if s[0][0] == 'fld':
+                    return [('dflt', s[0][1], dflt)]
+                if s[0][0] == 'dflt' and s[0][2] == dflt:
+                    return s
     if isinstance(e, ast.BinOp) and isinstance(e.op, ast.Add):
         a, b = _key_shape(e.left, base), _key_shape(e.right, base)
         return None if a is None or b is None else a + b
@@ -308,7 +345,7 @@ def rule4(ctx, rep):
         owners_add = {'dawgie.pl.farm.Hand.do', 'dawgie.pl.worker.aws.Contractor._reg'}
         owners_del = {'dawgie.pl.farm.Hand._res', 'dawgie.pl.farm.clear'}
         shapes = {}
-        for fn in prog.funcs.values():
+        for fn in [prog.nfunc(q) if q.startswith(('dawgie.pl.farm', 'dawgie.pl.worker.aws')) else f0 for q, f0 in prog.funcs.items()]:
             for c in fn.calls():
                 if isinstance(c.func, ast.Attribute) and shared.resolve_container(prog, fn, c.func.value) == 'dawgie.pl.farm._busy':
                     m = c.func.attr
@@ -318,13 +355,14 @@ def rule4(ctx, rep):
                         r.check(fn.qname in owners_add, f'{fn.qname}:{norm(c)[:60]}', where(fn, c), 'append at a hand-out site', f'{fn.qname} appends to the busy list but does not hand a task to a worker')
                         if c.args:
                             base = fn.params()[1] if len(fn.params()) > 1 else None
+                            _SHAPE_FN[0] = fn
                             shapes[fn.qname] = (_key_shape(c.args[0], base), c, fn)
                     elif m in ('remove', 'pop', 'clear'):
                         r.instance()
                         rep.analysed(fn)
                         r.check(fn.qname in owners_del, f'{fn.qname}:{norm(c)[:60]}', where(fn, c), 'removal by the reply handler / clear', f'{fn.qname} removes from the busy list outside the reply handler')
         # the key removed in _res
-        res = prog.func('dawgie.pl.farm.Hand._res')
+        res = prog.nfunc('dawgie.pl.farm.Hand._res')
         msgp = res.params()[0]
         rm = [c for c in res.calls() if isinstance(c.func, ast.Attribute) and c.func.attr == 'remove' and shared.resolve_container(prog, res, c.func.value) == 'dawgie.pl.farm._busy']
         if not rm or not isinstance(rm[0].args[0], ast.Name):
@@ -333,6 +371,7 @@ def rule4(ctx, rep):
         defs = [s.value for s in res.own_nodes() if isinstance(s, ast.Assign) and any(isinstance(t, ast.Name) and t.id == kv for t in s.targets)]
         if len(defs) != 1:
             raise AnalysisError('Hand._res: busy key is not defined exactly once')
+        _SHAPE_FN[0] = res
         rshape = _key_shape(defs[0], msgp)
         # field correspondence task message -> reply message, established by the workers' reply constructions
         corr = _reply_correspondence(ctx, rep, r)
@@ -350,7 +389,7 @@ def rule4(ctx, rep):
                 f'busy key built in {q} has shape {have}; the reply handler removes {want} (reply fields mapped through {corr}): the entry would never be cleared',
             )
         # _time is maintained under the same key in the same functions
-        for fn in prog.funcs.values():
+        for fn in [prog.nfunc(q) if q.startswith(('dawgie.pl.farm', 'dawgie.pl.worker.aws')) else f0 for q, f0 in prog.funcs.items()]:
             for n in fn.own_nodes():
                 tg = None
                 if isinstance(n, ast.Assign) and isinstance(n.targets[0], ast.Subscript):
@@ -370,7 +409,7 @@ def _reply_correspondence(ctx, rep, r):
     for q in ('dawgie.pl.worker.cluster.execute', 'dawgie.pl.worker.aws.execute'):
         if not prog.has_func(q):
             continue
-        fn = prog.func(q)
+        fn = prog.nfunc(q)
         rep.analysed(fn)
         for c in calls_to(prog, fn, 'dawgie.pl.message.make'):
             typ = arg(c, None, 'typ')
